@@ -195,6 +195,86 @@ fn bucket(n: usize) -> String {
     }
 }
 
+// ---- independent re-implementations used only by the oracle (written from the specifications of
+// the base64 Indifferent-padding decoder and of percent-decoding, not from tonic's code path)
+fn b64_val(c: u8) -> Option<u32> {
+    match c {
+        b'A'..=b'Z' => Some((c - b'A') as u32),
+        b'a'..=b'z' => Some((c - b'a') as u32 + 26),
+        b'0'..=b'9' => Some((c - b'0') as u32 + 52),
+        b'+' => Some(62),
+        b'/' => Some(63),
+        _ => None,
+    }
+}
+fn indep_b64(v: &[u8]) -> Option<Vec<u8>> {
+    // padding may only close the last group of at most four bytes, after >= 2 symbols
+    let n = v.len();
+    let last = if n == 0 { 0 } else if n % 4 == 0 { 4 } else { n % 4 };
+    let (head, tail) = v.split_at(n - last);
+    let mut out = vec![];
+    for q in head.chunks(4) {
+        let x: Option<Vec<u32>> = q.iter().map(|c| b64_val(*c)).collect();
+        let x = x?;
+        let w = (x[0] << 18) | (x[1] << 12) | (x[2] << 6) | x[3];
+        out.extend_from_slice(&[(w >> 16) as u8, (w >> 8) as u8, w as u8]);
+    }
+    let syms: Vec<u8> = tail.iter().cloned().take_while(|c| *c != b'=').collect();
+    if tail[syms.len()..].iter().any(|c| *c != b'=') {
+        return None;
+    }
+    if tail.len() > syms.len() && syms.len() < 2 {
+        return None;
+    }
+    let x: Option<Vec<u32>> = syms.iter().map(|c| b64_val(*c)).collect();
+    let x = x?;
+    match x.len() {
+        0 => {
+            if !tail.is_empty() {
+                return None;
+            }
+        }
+        1 => return None,
+        2 => {
+            if x[1] & 0xf != 0 {
+                return None;
+            }
+            out.push(((x[0] << 2) | (x[1] >> 4)) as u8);
+        }
+        3 => {
+            if x[2] & 0x3 != 0 {
+                return None;
+            }
+            out.push(((x[0] << 2) | (x[1] >> 4)) as u8);
+            out.push((((x[1] & 0xf) << 4) | (x[2] >> 2)) as u8);
+        }
+        _ => {
+            let w = (x[0] << 18) | (x[1] << 12) | (x[2] << 6) | x[3];
+            out.extend_from_slice(&[(w >> 16) as u8, (w >> 8) as u8, w as u8]);
+        }
+    }
+    Some(out)
+}
+fn indep_pct(v: &[u8]) -> Vec<u8> {
+    fn hv(c: u8) -> Option<u8> {
+        (c as char).to_digit(16).map(|d| d as u8)
+    }
+    let mut out = vec![];
+    let mut i = 0;
+    while i < v.len() {
+        if v[i] == b'%' && i + 2 < v.len() + 0 && i + 2 <= v.len() - 1 {
+            if let (Some(a), Some(b)) = (hv(v[i + 1]), hv(v[i + 2])) {
+                out.push(a * 16 + b);
+                i += 3;
+                continue;
+            }
+        }
+        out.push(v[i]);
+        i += 1;
+    }
+    out
+}
+
 // ------------------------------------------------------------------ kind: hostile
 const CODE_VALUES: &[&[u8]] = &[
     b"0", b"1", b"2", b"9", b"10", b"16", b"17", b"", b"007", b"00", b"-1", b"+1", b" 1", b"1 ", b"2x",
@@ -237,6 +317,35 @@ fn case_hostile(out: &mut Out, entries: Vec<(String, Vec<u8>)>, corpus: bool) {
                 let ok = canonical.iter().any(|c| c.as_bytes() == cv.as_bytes());
                 if !ok && st.code() != Code::Unknown {
                     why = Some("malformed grpc-status did not become UNKNOWN".to_string());
+                }
+            }
+            // undecodable fields degrade to UNKNOWN; decodable ones are read exactly
+            if let Some(st) = &st {
+                let msg_ok = match hm.get("grpc-message") {
+                    Some(m) => match String::from_utf8(indep_pct(m.as_bytes())) {
+                        Ok(t) => Some(t),
+                        Err(_) => None,
+                    },
+                    None => Some(String::new()),
+                };
+                let det_ok = match hm.get("grpc-status-details-bin") {
+                    Some(d) => indep_b64(d.as_bytes()),
+                    None => Some(vec![]),
+                };
+                match (&msg_ok, &det_ok) {
+                    (Some(m), Some(d)) => {
+                        if st.message() != m {
+                            why = Some("decodable grpc-message not read exactly".to_string());
+                        }
+                        if st.details() != &d[..] {
+                            why = Some("decodable grpc-status-details-bin not read exactly".to_string());
+                        }
+                    }
+                    _ => {
+                        if st.code() != Code::Unknown {
+                            why = Some("undecodable message/details did not degrade to UNKNOWN".to_string());
+                        }
+                    }
                 }
             }
             if st.is_some() != hm.contains_key("grpc-status") {
@@ -420,6 +529,207 @@ fn case_tables(out: &mut Out, thorough: bool) {
     }
 }
 
+// ------------------------------------------------------------------ kind: from_error (error chains)
+#[derive(Debug)]
+struct Wrap(Option<Box<dyn std::error::Error + Send + Sync>>);
+impl std::fmt::Display for Wrap {
+    fn fmt(&self, f: &mut std::fmt::Formatter<'_>) -> std::fmt::Result {
+        write!(f, "wrapper")
+    }
+}
+impl std::error::Error for Wrap {
+    fn source(&self) -> Option<&(dyn std::error::Error + 'static)> {
+        self.0.as_ref().map(|e| &**e as &(dyn std::error::Error + 'static))
+    }
+}
+/// node encoding: (kind, arg): 0 Status(code) | 1 TimeoutExpired | 2 ConnectError | 3 h2 error with reason | 5 other wrapper
+fn build_chain(nodes: &[(u8, u32)]) -> Option<Box<dyn std::error::Error + Send + Sync>> {
+    let (first, rest) = nodes.split_first()?;
+    let inner = build_chain(rest);
+    Some(match first.0 {
+        0 => Box::new(Status::new(Code::from_i32(first.1 as i32), "chain")),
+        1 => Box::new(tonic::TimeoutExpired(())),
+        2 => Box::new(tonic::ConnectError(inner.unwrap_or_else(|| Box::new(Wrap(None))))),
+        3 => Box::new(h2::Error::from(h2::Reason::from(first.1))),
+        _ => Box::new(Wrap(inner)),
+    })
+}
+fn chain_coq(nodes: &[(u8, u32)]) -> String {
+    coq_list(nodes, |n| match n.0 {
+        0 => format!("EStatus {}", n.1),
+        1 => "ETimeout".into(),
+        2 => "EConnect".into(),
+        3 => format!("EH2 (Some {})", n.1),
+        _ => "EOther".into(),
+    })
+}
+fn case_from_error(out: &mut Out, nodes: Vec<(u8, u32)>) {
+    // Status, TimeoutExpired and h2::Error have no source: the chain ends at the first of them
+    let end = nodes.iter().position(|n| matches!(n.0, 0 | 1 | 3)).map(|i| i + 1).unwrap_or(nodes.len());
+    let nodes: Vec<(u8, u32)> = nodes[..end].to_vec();
+    let model = format!("Nn (from_error_code {})", chain_coq(&nodes));
+    let res = catch(std::panic::AssertUnwindSafe(|| {
+        build_chain(&nodes).map(|e| Status::from_error(e).code() as i32 as u32)
+    }));
+    let (obs, mut oracle) = match res {
+        Err(p) => (Tr::n(99u8), Some(format!("panic: {}", p))),
+        Ok(None) => return,
+        Ok(Some(c)) => (Tr::n(c), None),
+    };
+    // direct oracle for the simplest chains: a bare h2 error is classified by the gRPC table
+    if let [(3, r)] = nodes[..] {
+        let want = match r {
+            0 | 1 | 2 | 3 | 4 | 9 | 10 => Some(13),
+            7 => Some(14),
+            8 => Some(1),
+            11 => Some(8),
+            12 => Some(7),
+            5 | 6 | 13 => None,
+            _ => Some(2),
+        };
+        if let (Some(w), Tr::N(c)) = (want, &obs) {
+            if *c != w as u128 {
+                oracle = Some(format!("from_error(h2 reason {}) = code {}, table says {}", r, c, w));
+            }
+        }
+    }
+    if let [(2, _), ..] = nodes[..] {
+        if obs != Tr::n(14u8) {
+            oracle = Some("a ConnectError was not classified UNAVAILABLE".into());
+        }
+    }
+    out.push(Case {
+        kind: "table.from_error".into(),
+        input: json!({"chain": nodes}),
+        model,
+        impl_obs: obs,
+        oracle,
+        nontrivial: nodes.len() >= 2,
+    });
+}
+
+// ------------------------------------------------------------------ kind: reset (a real RST_STREAM through hyper)
+struct PipeConnector(std::sync::Arc<std::sync::Mutex<Option<tokio::io::DuplexStream>>>);
+impl tower_service::Service<http::Uri> for PipeConnector {
+    type Response = hyper_util::rt::TokioIo<tokio::io::DuplexStream>;
+    type Error = std::io::Error;
+    type Future = std::future::Ready<Result<Self::Response, Self::Error>>;
+    fn poll_ready(&mut self, _: &mut std::task::Context<'_>) -> std::task::Poll<Result<(), Self::Error>> {
+        std::task::Poll::Ready(Ok(()))
+    }
+    fn call(&mut self, _: http::Uri) -> Self::Future {
+        std::future::ready(match self.0.lock().unwrap().take() {
+            Some(io) => Ok(hyper_util::rt::TokioIo::new(io)),
+            None => Err(std::io::Error::new(std::io::ErrorKind::Other, "no more pipes")),
+        })
+    }
+}
+#[derive(Default, Clone)]
+struct RawEncoder;
+impl tonic::codec::Encoder for RawEncoder {
+    type Item = Vec<u8>;
+    type Error = Status;
+    fn encode(&mut self, item: Vec<u8>, dst: &mut tonic::codec::EncodeBuf<'_>) -> Result<(), Status> {
+        use bytes::BufMut;
+        dst.put_slice(&item);
+        Ok(())
+    }
+}
+#[derive(Default, Clone)]
+struct RawCodec;
+impl tonic::codec::Codec for RawCodec {
+    type Encode = Vec<u8>;
+    type Decode = Vec<u8>;
+    type Encoder = RawEncoder;
+    type Decoder = RawDecoder;
+    fn encoder(&mut self) -> RawEncoder {
+        RawEncoder
+    }
+    fn decoder(&mut self) -> RawDecoder {
+        RawDecoder
+    }
+}
+/// the peer answers the call's stream with RST_STREAM(reason), before (`late` = false) or after
+/// the response headers; the client is the full tonic Channel stack
+fn case_reset(out: &mut Out, reason: u32, late: bool) {
+    let rt = tokio::runtime::Builder::new_current_thread().enable_all().build().unwrap();
+    let res: Result<Result<u32, String>, String> = catch(std::panic::AssertUnwindSafe(|| {
+        rt.block_on(async move {
+            let (c, s) = tokio::io::duplex(1 << 16);
+            tokio::spawn(async move {
+                let mut conn = match h2::server::handshake(s).await {
+                    Ok(c) => c,
+                    Err(_) => return,
+                };
+                while let Some(Ok((_req, mut respond))) = conn.accept().await {
+                    if late {
+                        let resp = http::Response::builder()
+                            .status(200)
+                            .header("content-type", "application/grpc")
+                            .body(())
+                            .unwrap();
+                        if let Ok(mut send) = respond.send_response(resp, false) {
+                            send.send_reset(h2::Reason::from(reason));
+                        }
+                    } else {
+                        respond.send_reset(h2::Reason::from(reason));
+                    }
+                }
+            });
+            let ep = tonic::transport::Endpoint::from_static("http://pipe.test");
+            let ch = ep.connect_with_connector_lazy(PipeConnector(std::sync::Arc::new(std::sync::Mutex::new(Some(c)))));
+            let mut g = tonic::client::Grpc::new(ch);
+            let fut = async {
+                g.ready().await.map_err(|e| format!("not ready: {}", e))?;
+                let r = g
+                    .unary::<Vec<u8>, Vec<u8>, _>(
+                        tonic::Request::new(vec![1, 2, 3]),
+                        http::uri::PathAndQuery::from_static("/p.S/M"),
+                        RawCodec,
+                    )
+                    .await;
+                match r {
+                    Ok(_) => Err("call succeeded although the stream was reset".to_string()),
+                    Err(st) => Ok(st.code() as i32 as u32),
+                }
+            };
+            match tokio::time::timeout(std::time::Duration::from_secs(20), fut).await {
+                Ok(r) => r,
+                Err(_) => Err("hang".to_string()),
+            }
+        })
+    }));
+    let (obs, oracle) = match res {
+        Err(p) => (Tr::n(99u8), Some(format!("panic: {}", p))),
+        Ok(Err(e)) => (Tr::n(98u8), Some(e)),
+        Ok(Ok(c)) => {
+            let want = match reason {
+                0 | 1 | 2 | 3 | 4 | 9 | 10 => Some(13),
+                7 => Some(14),
+                8 => Some(1),
+                11 => Some(8),
+                12 => Some(7),
+                5 | 6 | 13 => None,
+                _ => Some(2),
+            };
+            let why = match want {
+                Some(w) if w != c => Some(format!("stream reset with HTTP/2 error {} seen as code {}, table says {}", reason, c, w)),
+                None if c != 13 && c != 2 => Some(format!("stream reset with HTTP/2 error {} seen as code {}", reason, c)),
+                _ => None,
+            };
+            (Tr::n(c), why)
+        }
+    };
+    out.push(Case {
+        kind: if late { "reset.after_headers".into() } else { "reset.before_headers".into() },
+        input: json!({"reason": reason, "late": late}),
+        model: format!("Nn (reset_stream_code {})", reason),
+        impl_obs: obs,
+        oracle,
+        nontrivial: true,
+    });
+}
+
 fn main() {
     let a = args();
     let mut out = Out::new(&a.out);
@@ -475,6 +785,23 @@ fn main() {
     }
 
     case_tables(&mut out, a.thorough);
+    for r in (0..=16u32).chain([255, 65536]) {
+        case_reset(&mut out, r, false);
+        case_reset(&mut out, r, true);
+    }
+    // error chains: every single node, every pair, random longer chains
+    let node_pool: Vec<(u8, u32)> = (0..17u32).map(|c| (0u8, c)).chain([(1, 0), (2, 0), (5, 0)]).chain((0..=14u32).map(|r| (3u8, r))).chain([(3u8, 255u32)]).collect();
+    for a1 in &node_pool {
+        case_from_error(&mut out, vec![*a1]);
+        for a2 in [(5u8, 0u32), (0, 5), (1, 0), (2, 0), (3, 8)] {
+            case_from_error(&mut out, vec![a2, *a1]);
+        }
+    }
+    for _ in 0..(if a.thorough { 3000 } else { 300 }) {
+        let n = r.range(2, 5) as usize;
+        let ch: Vec<(u8, u32)> = (0..n).map(|_| *r.pick(&node_pool)).collect();
+        case_from_error(&mut out, ch);
+    }
     for h in 100..=599u16 {
         case_infer(&mut out, h, None);
     }
